@@ -371,3 +371,24 @@ def dict3_control(x: int, y: int) -> bool:
     A = UV.Deep(ddd={"a": {"b": {"x": x}}, "c": {}})
     B = UV.Deep(ddd={"a": {"b": {"x": y}, "c": {}}})
     return fin(hashing.raw(A.__xpm__.raw_identifier.main) != hashing.raw(B.__xpm__.raw_identifier.main))
+
+
+def default_hides_task(x: int, y: int) -> bool:
+    """Witness of the known finding C03-default-config-hides-producing-task
+    (not a registered condition): a task output that is structurally equal to
+    the parameter's default configuration is dropped from the hash together
+    with its producing task.
+
+    post: _
+    """
+    import xv.defs.ident as U
+    import xv.defs.ident_variants as UV
+
+    if not (-(2**63) <= x < 2**63 and -(2**63) <= y < 2**63) or x == y:
+        return True
+    a = UV.WithDef(sub=graphs.dry_submit(U.Produce2(x=x, out=U.Out(w=1))))
+    b = UV.WithDef(sub=graphs.dry_submit(U.Produce2(x=y, out=U.Out(w=1))))
+    c = UV.WithDef()
+    ia, ib, ic = (hashing.raw(o.__xpm__.full_identifier.main) for o in (a, b, c))
+    rt.note("ids", ia.hex() if rt.concrete() else "", ib.hex() if rt.concrete() else "")
+    return fin(ia != ib and ia != ic)
